@@ -53,23 +53,47 @@ pub fn plan_from_header(case: &Case, prefix: &str) -> Plan {
 }
 
 /// Iterator adaptor handed to `extend`: counts as the "extend iterator" callback class.
-/// The by-reference `Extend` impls need `Copy` elements: only the plain flavour has them.
-/// Returns false when the element types are not the plain ones or `variant` asks for by-value.
-fn extend_by_ref<K: KeyT, V: ValT>(map: &mut Map<K, V>, items: &Vec<(K, V)>, variant: u64) -> bool {
-    use crate::elem::{PKey, PVal};
-    use std::any::Any;
-    if variant < 2 {
-        return false;
-    }
-    let (Some(m), Some(it)) = ((map as &mut dyn Any).downcast_mut::<Map<PKey, PVal>>(), (items as &dyn Any).downcast_ref::<Vec<(PKey, PVal)>>()) else {
-        return false;
+/// The by-reference `Extend` impls (`Extend<(&K, &V)>`, `Extend<&(K, V)>`) need `Copy` elements:
+/// they are exercised on a side map of `(ArrKey, u64)` pairs under the case's hash plan. The pairs
+/// go in through three routes and must give the same map: first key kept, last value wins.
+fn by_ref_extend_check(plan: Plan, items: &[(u32, u64)]) -> Result<(), Bad> {
+    type M = hb::HashMap<ArrKey, u64, PlanBuildHasher, CheckAlloc>;
+    let pairs: Vec<(ArrKey, u64)> = items.iter().enumerate().map(|(i, (id, v))| (ArrKey { id: *id, tag: i as u32 }, *v)).collect();
+    let contents = |m: &M| {
+        let mut v: Vec<(u32, u32, u64)> = m.iter().map(|(k, v)| (k.id, k.tag, *v)).collect();
+        v.sort_unstable();
+        v
     };
-    if variant == 2 {
-        m.extend(it.iter().map(|e| (&e.0, &e.1)));
-    } else {
-        m.extend(it.iter());
+    let mut by_value: M = M::with_hasher_in(PlanBuildHasher::new(plan), CheckAlloc);
+    by_value.extend(pairs.iter().copied());
+    let mut by_pair_ref: M = M::with_hasher_in(PlanBuildHasher::new(plan), CheckAlloc);
+    by_pair_ref.extend(pairs.iter());
+    let mut by_refs: M = M::with_hasher_in(PlanBuildHasher::new(plan), CheckAlloc);
+    by_refs.extend(pairs.iter().map(|e| (&e.0, &e.1)));
+    let mut want: Vec<(u32, u32, u64)> = Vec::new();
+    for (k, v) in &pairs {
+        match want.iter_mut().find(|e| e.0 == k.id) {
+            Some(e) => e.2 = *v,
+            None => want.push((k.id, k.tag, *v)),
+        }
     }
-    true
+    want.sort_unstable();
+    for (name, m) in [("Extend<(K, V)>", &by_value), ("Extend<&(K, V)>", &by_pair_ref), ("Extend<(&K, &V)>", &by_refs)] {
+        if contents(m) != want || m.len() != want.len() {
+            bad!("C01", "extend-by-reference", "{name} of {} pairs ({} distinct keys) gives {} entries; (id, tag of the stored key, value) {:?}, expected {:?}", pairs.len(), want.len(), m.len(), &contents(m)[..contents(m).len().min(6)], &want[..want.len().min(6)]);
+        }
+    }
+    // C08: new keys that fit into capacity()-len() must not make the by-reference impls allocate,
+    // whatever the iterator's upper size bound claims (a filtered iterator claims more than it yields)
+    let mut roomy: M = M::with_capacity_and_hasher_in(pairs.len().max(1), PlanBuildHasher::new(plan), CheckAlloc);
+    let st0 = alloc::stats();
+    let keep_every = 3;
+    roomy.extend(pairs.iter().enumerate().filter(|(i, _)| i % keep_every == 0).map(|(_, e)| e));
+    let st1 = alloc::stats();
+    if st1.n_alloc != st0.n_alloc {
+        bad!("C08", "insert-within-capacity-allocated", "Extend<&(K, V)> of at most {} new keys into a map with capacity {} called the allocator", pairs.len().div_ceil(keep_every), pairs.len().max(1));
+    }
+    Ok(())
 }
 
 struct FeedIter<T> {
@@ -110,6 +134,7 @@ pub struct Interp<'c, K: KeyT, V: ValT> {
     /// per slot: the map was never given an element or a capacity (C03: it must own no block)
     pristine: [bool; 2],
     pub c13_bound: usize,
+    c13_bound_peak: usize,
     pub c13_peak_live: usize,
     /// a destructor panic was injected: leaked elements / blocks are allowed from now on
     leak_ok: bool,
@@ -179,6 +204,7 @@ where
             panic_prop: if chaos { "C05" } else { "C02" },
             pristine: [case.h("cap") == 0, case.h("b_cap") == 0],
             c13_bound: 0,
+            c13_bound_peak: 0,
             c13_peak_live: 0,
             leak_ok: false,
             trace: case.h("trace") != 0,
@@ -377,9 +403,11 @@ where
                     expect.push((k, g, a[2] + i as u64));
                 }
                 let s = &mut self.slots[self.cur];
-                // plain (Copy) elements: half of the extends go through `Extend<(&K, &V)>` / `Extend<&(K, V)>`
-                if !extend_by_ref(&mut s.map, &items, a[2] % 4) {
-                    s.map.extend(FeedIter { items: items.into_iter(), claim: None });
+                s.map.extend(FeedIter { items: items.into_iter(), claim: None });
+                if self.lawful && self.case.header.get("fault_step").is_none() {
+                    let side: Vec<(u32, u64)> = expect.iter().map(|e| (e.0, e.2)).collect();
+                    let _q = Quiet::new();
+                    by_ref_extend_check(s.plan, &side)?;
                 }
                 for (k, g, v) in expect {
                     Self::model_insert(&mut s.model, k, g, v);
@@ -665,8 +693,16 @@ where
                 // C13: `rounds` insertions with the live count capped at `live_cap`: when the cap is
                 // reached one element is removed first, chosen by the removal pattern
                 let cap_n = (self.case.h_or("live_cap", 8) as usize).max(1);
-                let pattern = a[1] % 5;
+                let pattern = a[1] % 6;
                 for r in 0..(a[0] % 65) {
+                    if pattern == 5 && self.slots[self.cur].model.len() >= cap_n {
+                        // fill to the cap, then remove everything one by one (the table is empty when its
+                        // spare room runs out)
+                        while let Some(id) = self.slots[self.cur].model.first().map(|e| e.id) {
+                            self.remove_key(self.cur, id, (r % 3) as u64)?;
+                            self.basic_ops += 1;
+                        }
+                    }
                     while self.slots[self.cur].model.len() >= cap_n {
                         let len = self.slots[self.cur].model.len();
                         let idx = match pattern {
@@ -716,6 +752,8 @@ where
                         }
                     }
                     self.basic_ops += 1;
+                    // the live count may fall again inside this macro-operation (pattern 5)
+                    self.c13_track();
                 }
             }
             ops::ITER => self.iter_op(a[0] % 9, a[1], a[2] % 5)?,
@@ -793,6 +831,26 @@ where
                     let v = &s.map[&key];
                     v.check("index value");
                     (Some(v.get()), None)
+                } else if !self.lawful {
+                    // under inconsistent answers Index may panic ("key not found"), nothing worse
+                    let key = K::new(k, 0);
+                    let map = &s.map;
+                    let r = catch_unwind(AssertUnwindSafe(|| {
+                        let v = &map[&key];
+                        v.check("index value");
+                        v.get()
+                    }));
+                    match r {
+                        Ok(v) => (Some(v), None),
+                        Err(p) => {
+                            if p.downcast_ref::<Injected>().is_some() {
+                                std::panic::resume_unwind(p);
+                            }
+                            drop(p);
+                            world::clear_panic_messages();
+                            (None, None)
+                        }
+                    }
                 } else {
                     (s.map.get(&KeyRef(k)).map(|v| v.get()), None)
                 }
@@ -1627,8 +1685,11 @@ where
     /// C13: the allocation stays below that of with_capacity(4 * peak live count).
     fn c13_check(&mut self) -> Result<(), Bad> {
         let live = self.slots[self.cur].model.len() + 1;
-        if live > self.c13_peak_live || self.c13_bound == 0 {
+        // (the peak may also have been raised inside a macro-operation: `c13_bound_peak` remembers
+        // which peak the bound was computed for)
+        if live > self.c13_peak_live || self.c13_bound == 0 || self.c13_bound_peak != self.c13_peak_live {
             self.c13_peak_live = self.c13_peak_live.max(live);
+            self.c13_bound_peak = self.c13_peak_live;
             let plan = self.slots[self.cur].plan;
             let fresh: Map<K, V> = Map::with_capacity_and_hasher_in(4 * self.c13_peak_live.max(1), PlanBuildHasher::new(plan), CheckAlloc);
             self.c13_bound = fresh.allocation_size();
